@@ -23,7 +23,7 @@ Feasible(k) == /\ k.newc + k.chg <= k.n
 
 Defects(k) ==
     { [k EXCEPT !.shape = s] : s \in { "twoOutputs", "wrongType", "wrongScript", "twoKeys", "wrongAsset" } } \cup
-    { [k EXCEPT !.order = s] : s \in { "swap", "reversed" } } \cup
+    { [k EXCEPT !.order = s] : s \in { "swap", "reversed", "swapFirst", "swapLast", "minLast" } } \cup
     { [k EXCEPT !.dup = s] : s \in { "custodian", "payee", "cross", "self" } } \cup
     { [k EXCEPT !.action = "bad"] } \cup
     { [k EXCEPT !.psig = s] : s \in SigKinds \ {"good"} } \cup
